@@ -1764,7 +1764,10 @@ class Fxp():
     # binary ufuncs whose first input is not a Fxp are the reflected operators (a NumPy scalar or array on the left of
     # an operator calls the ufunc instead of returning NotImplemented): same result as a Python number on the left
     _reflected_ufuncs = {np.add: '__radd__', np.subtract: '__rsub__', np.multiply: '__rmul__',
-                         np.bitwise_and: '__rand__', np.bitwise_or: '__ror__', np.bitwise_xor: '__rxor__'}
+                         np.bitwise_and: '__rand__', np.bitwise_or: '__ror__', np.bitwise_xor: '__rxor__',
+                         # comparisons compare values (never raw codes, whatever config.array_op_method is): k < x is x > k
+                         np.less: '__gt__', np.less_equal: '__ge__', np.greater: '__lt__', np.greater_equal: '__le__',
+                         np.equal: '__eq__', np.not_equal: '__ne__'}
 
     def __array_ufunc__(self, ufunc, method, *inputs, **kwargs):
         if method == '__call__':
